@@ -1063,9 +1063,14 @@ void janet_buffer_format(
                     JanetByteView bytes = janet_getbytes(argv, arg);
                     const uint8_t *s = bytes.bytes;
                     int32_t l = bytes.len;
-                    if (form[2] == '\0')
+                    if (form[2] == '\0') {
+                        if (s == b->data) {
+                            /* formatting a buffer into itself: grow first, then re-read the data pointer */
+                            janet_buffer_ensure(b, b->count + l, 2);
+                            s = b->data;
+                        }
                         janet_buffer_push_bytes(b, s, l);
-                    else {
+                    } else {
                         if (l != (int32_t) strlen((const char *) s))
                             janet_panic("string contains zeros");
                         if (!strchr(form, '.') && l >= 100) {
